@@ -904,6 +904,14 @@ pub fn corpus_sequences(max_len: usize) -> Vec<ManifestSet> {
             vars: vec![("v".into(), expr("first")), ("w".into(), expr("mid")), ("v".into(), expr("second$w"))],
             ..Default::default()
         }),
+        // a block that overrides rule attributes itself, next to a binding of
+        // the variable they mention: edge attributes see the file scope only
+        Stmt::Build(BuildStmt {
+            outs: vec![lit("ovr")],
+            rule: "r".into(),
+            vars: vec![("v".into(), expr("blockv")), ("command".into(), expr("over $v ${v}")), ("description".into(), expr("O $v"))],
+            ..Default::default()
+        }),
         Stmt::Default(vec![lit("x")]),
         Stmt::Default(vec![lit("z"), expr("q$v")]),
         Stmt::Pool("pp".into(), Some(3)),
@@ -985,6 +993,8 @@ pub enum Placement {
     Main,
     Included,
     Subninja,
+    /// build.ninja includes mid.ninja, which includes child.ninja.
+    IncludedTwice,
 }
 
 pub fn c11_manifest(assign: &[usize], placement: Placement) -> ManifestSet {
@@ -1075,6 +1085,24 @@ pub fn c11_manifest(assign: &[usize], placement: Placement) -> ManifestSet {
             stmts.push(probe);
             ManifestSet {
                 files: vec![("build.ninja".into(), stmts)],
+            }
+        }
+        Placement::IncludedTwice => {
+            let mut child = vec![rule, build];
+            child.extend(post);
+            if let Some(v) = e(10) {
+                child.push(Stmt::Binding("inc".into(), v));
+            }
+            let mut stmts = pre;
+            stmts.push(Stmt::Include(lit("mid.ninja")));
+            stmts.push(show);
+            stmts.push(probe);
+            ManifestSet {
+                files: vec![
+                    ("build.ninja".into(), stmts),
+                    ("mid.ninja".into(), vec![Stmt::Comment(" the middle file binds nothing itself".into()), Stmt::Include(lit("child.ninja"))]),
+                    ("child.ninja".into(), child),
+                ],
             }
         }
         Placement::Included | Placement::Subninja => {
